@@ -389,17 +389,17 @@ Inductive ast :=
 | AFresh
 | AStarting (m : nat)                      (* between nodes in the start loop *)
 | AInStart (m : nat) (h : bool)            (* inside the start bracket of node m *)
-| ARoll (c : nat)                          (* rolling back; nodes c.. are stopped *)
-| ARollIn (c : nat) (h x : bool)           (* inside the stop bracket of node c-1 (rollback) *)
-| ARollAborted (c : nat)                   (* the stop of node c failed: rollback is over *)
+| ARoll (m c : nat)                        (* rolling back; nodes c.. are stopped again *)
+| ARollIn (m c : nat) (h x : bool)         (* inside the stop bracket of node c-1 (rollback) *)
+| ARollAborted (m c : nat)                 (* the stop of node c failed: the rollback is over *)
 | AStarted (m : nat)
 | ACycle (m pos : nat)                     (* in an evaluation; next node index >= pos *)
 | AInEval (m i : nat) (h : bool)
 | AStopping (m c : nat) (x : bool)
 | AStopIn (m c : nat) (h x1 x : bool)      (* x1: this node's stop failed; x: some stop failed *)
-| AStopFailed                              (* after "stop graph failed", awaiting "after stop graph" *)
-| ADone                                    (* stopped, or start failed and fully rolled back *)
-| ALeaked (c : nat)                        (* start failed, rollback aborted: nodes < c still started *)
+| AStopFailed (m : nat)                    (* after "stop graph failed", awaiting "after stop graph" *)
+| ADone (m : nat)                          (* stopped, or start failed and fully rolled back *)
+| ALeaked (m c : nat)                      (* start failed, rollback aborted: nodes < c still started *)
 | ABad.
 
 Definition astep (a : ast) (s : sym) : ast :=
@@ -409,15 +409,15 @@ Definition astep (a : ast) (s : sym) : ast :=
   | AStarting m, SG ASG => AStarted m
   | AInStart m false, SN HS i => if Nat.eqb i m then AInStart m true else ABad
   | AInStart m _, SN ASN i => if Nat.eqb i m then AStarting (S m) else ABad
-  | AInStart m _, SN SNF i => if Nat.eqb i m then ARoll m else ABad
-  | ARoll (S c), SN BPN i => if Nat.eqb i c then ARollIn (S c) false false else ABad
-  | ARoll O, SG SGF => ADone
-  | ARollIn (S c) false false, SN HP i => if Nat.eqb i c then ARollIn (S c) true false else ABad
-  | ARollIn (S c) h false, SN PNF i => if Nat.eqb i c then ARollIn (S c) h true else ABad
-  | ARollIn (S c) _ false, SN APN i => if Nat.eqb i c then ARoll c else ABad
-  | ARollIn (S c) _ true, SN APN i => if Nat.eqb i c then ARollAborted c else ABad
-  | ARollAborted O, SG SGF => ADone
-  | ARollAborted (S c), SG SGF => ALeaked (S c)
+  | AInStart m _, SN SNF i => if Nat.eqb i m then ARoll m m else ABad
+  | ARoll m (S c), SN BPN i => if Nat.eqb i c then ARollIn m (S c) false false else ABad
+  | ARoll m O, SG SGF => ADone m
+  | ARollIn m (S c) false false, SN HP i => if Nat.eqb i c then ARollIn m (S c) true false else ABad
+  | ARollIn m (S c) h false, SN PNF i => if Nat.eqb i c then ARollIn m (S c) h true else ABad
+  | ARollIn m (S c) _ false, SN APN i => if Nat.eqb i c then ARoll m c else ABad
+  | ARollIn m (S c) _ true, SN APN i => if Nat.eqb i c then ARollAborted m c else ABad
+  | ARollAborted m O, SG SGF => ADone m
+  | ARollAborted m (S c), SG SGF => ALeaked m (S c)
   | AStarted m, SG BGE => ACycle m 0
   | AStarted m, SG BPG => AStopping m m false
   | ACycle m pos, SN BEN i => if Nat.leb pos i && Nat.ltb i m then AInEval m i false else ABad
@@ -425,9 +425,9 @@ Definition astep (a : ast) (s : sym) : ast :=
   | AInEval m i false, SN HE j => if Nat.eqb j i then AInEval m i true else ABad
   | AInEval m i _, SN AEN j => if Nat.eqb j i then ACycle m (S i) else ABad
   | AStopping m (S c) x, SN BPN i => if Nat.eqb i c then AStopIn m (S c) false false x else ABad
-  | AStopping m O false, SG APG => ADone
-  | AStopping m O true, SG PGF => AStopFailed
-  | AStopFailed, SG APG => ADone
+  | AStopping m O false, SG APG => ADone m
+  | AStopping m O true, SG PGF => AStopFailed m
+  | AStopFailed m, SG APG => ADone m
   | AStopIn m (S c) false false x, SN HP i => if Nat.eqb i c then AStopIn m (S c) true false x else ABad
   | AStopIn m (S c) h false x, SN PNF i => if Nat.eqb i c then AStopIn m (S c) h true true else ABad
   | AStopIn m (S c) _ _ x, SN APN i => if Nat.eqb i c then AStopping m c x else ABad
@@ -438,8 +438,9 @@ Definition arun (a : ast) (w : list sym) : ast := fold_left astep w a.
 
 Definition ast_bad (a : ast) : bool := match a with ABad => true | _ => false end.
 (* states a graph may rest in when everything is over *)
-Definition ast_final (a : ast) : bool := match a with AFresh | ADone => true | _ => false end.
-Definition ast_leaked (a : ast) : bool := match a with ALeaked _ => true | _ => false end.
+Definition ast_final (a : ast) : bool := match a with AFresh | ADone _ => true | _ => false end.
+Definition ast_leaked (a : ast) : bool := match a with ALeaked _ _ => true | _ => false end.
+Definition ast_done (a : ast) : bool := match a with ADone _ => true | _ => false end.
 
 Fixpoint nodup_paths (l : list path) : list path :=
   match l with
